@@ -120,7 +120,7 @@ type checker struct {
 
 var counters = []string{"instances", "construct", "reflexive", "variant_equal_hash", "gob_roundtrip", "gob_clock", "string_reparse",
 	"big_hashmap_lookup", "big_immutable_lookup", "pairs", "pairs_must_equal", "pairs_must_differ", "pairs_either", "hash_agree",
-	"member_agree", "apply_agree", "hashmap_agree", "immutable_agree", "transitivity_pairs", "vclock_gob", "tlc_string_eval"}
+	"member_agree", "apply_agree", "hashmap_agree", "immutable_agree", "transitivity_pairs", "vclock_gob", "tlc_string_eval", "tlc_refuses_mixed_kinds"}
 
 func newChecker(causal, thorough bool) *checker {
 	c := &checker{causal: causal, thorough: thorough, viol: map[string]hres.Viol{}, n: map[string]*atomic.Int64{}}
@@ -458,13 +458,13 @@ func runHalf(causal bool, env hres.Env) (*checker, *halfStats) {
 	}
 	wg.Wait()
 
-	// phase B: pairs.  thorough: ALL ordered pairs of instances.  quick: every instance against the canonical build
+	// phase B: pairs.  thorough, plain half: ALL ordered pairs of instances.  otherwise: every instance against the canonical build
 	// (variant 0) and the alternative-children build (last variant) of every value, wrapped and unwrapped.
 	// Column j of the Equal matrix is owned by the worker that took j.
 	n := len(all)
 	var cols []int
 	for j, b := range all {
-		if env.Thorough() || b.v == 0 || b.v == variants(b.sh)-1 {
+		if (env.Thorough() && !causal) || b.v == 0 || b.v == variants(b.sh)-1 {
 			cols = append(cols, j)
 		}
 	}
@@ -631,8 +631,9 @@ func (c *checker) tlcStrings(env hres.Env, all []*inst) {
 	}
 	ctx, cancel := context.WithDeadline(context.Background(), env.Deadline)
 	defer cancel()
-	r := &tlabridge.Runner{Parallel: env.Workers}
-	res, err := r.Eval(ctx, exprs)
+	// REPL mode: an expression TLC cannot evaluate does not cost a JVM start
+	r := &tlabridge.Runner{Parallel: env.Workers, Timeout: 90 * time.Second}
+	res, err := r.EvalREPL(ctx, exprs)
 	if err != nil {
 		// TLC unavailable or out of time: not a verdict
 		c.n["tlc_string_eval"].Store(-1)
@@ -642,6 +643,10 @@ func (c *checker) tlcStrings(env hres.Env, all []*inst) {
 		c.n["tlc_string_eval"].Add(1)
 		rp := replay{Check: "tlc", A: who[i].ref(), Expr: x.Expr}
 		switch {
+		case !x.OK && x.ErrClass == "type":
+			// TLC refuses to build or compare values whose members are of different kinds (at any depth); that is
+			// TLC's limitation, not a defect of the printed form (the parser-based check above covers these values)
+			c.n["tlc_refuses_mixed_kinds"].Add(1)
 		case !x.OK:
 			c.fail("string/tlc-rejects/"+kindName(who[i].sh), fmt.Sprintf("TLC cannot evaluate %s: %s", x.Expr, strings.ReplaceAll(x.ErrMsg, "\n", " ")), rp)
 		case x.Value != "TRUE":
@@ -702,8 +707,8 @@ func replayOne(env hres.Env, r replay) *checker {
 			}
 		}
 	case "tlc":
-		res, err := (&tlabridge.Runner{Parallel: 1}).Eval(context.Background(), []string{r.Expr})
-		if err == nil && (!res[0].OK || res[0].Value != "TRUE") {
+		res, err := (&tlabridge.Runner{Parallel: 1}).EvalREPL(context.Background(), []string{r.Expr})
+		if err == nil && !(res[0].OK && res[0].Value == "TRUE") && res[0].ErrClass != "type" {
 			c.fail("string/tlc-denotes-other-value/"+kindName(a.sh), fmt.Sprintf("TLC: %s -> %s %s", r.Expr, res[0].Value, res[0].ErrMsg), r)
 		}
 	case "vclock":
@@ -852,7 +857,7 @@ func TestCheck(t *testing.T) {
 			"rule": "every value of the universe (atoms; every set/tuple/function of <=2 atoms; every set/tuple/function of <=2 members of a core of depth<=2 values (core_size), i.e. depth 3; two-pair functions take their values from a 2..4 element pool) " +
 				"is built through every constructor and insertion order (MakeSet orders and duplicates, MakeSetFromMap, \\cup, MakeTuple, Append, \\o, Tail, MakeRecord orders/overrides, :> @@ both orders, MakeRecordFromMap, MakeFunction, EXCEPT, alternative-built children); " +
 				"checked per instance: reflexivity, Equal+Hash against the canonical build, gob round trip alone and inside a message struct, String() re-parsed, lookup in a hashmap/immutable.Map holding every value; " +
-				"checked for pairs (thorough: ALL ordered pairs of instances; quick: every instance x the canonical and the alternative-children build of every value, wrapped and unwrapped = pair_columns): symmetry, same value => Equal, different TLA+ value => not Equal, Equal => same Hash, and agreement of \\in, function application, hashmap.Get, immutable.Map.Get with Equal (for all pairs of canonical builds and all pairs that are Equal, expected Equal or hash-colliding); " +
+				"checked for pairs (thorough, unwrapped half: ALL ordered pairs of instances; otherwise: every instance x the canonical and the alternative-children build of every value, wrapped and unwrapped = pair_columns): symmetry, same value => Equal, different TLA+ value => not Equal, Equal => same Hash, and agreement of \\in, function application, hashmap.Get, immutable.Map.Get with Equal (for all pairs of canonical builds and all pairs that are Equal, expected Equal or hash-colliding); " +
 				"transitivity for all triples (instance, column, column) via the Equal matrix (Equal must be exactly the connected components of its own graph); the same again with every value and sub-value wrapped by WrapCausal (child process). " +
 				"evaluations = instances + ordered pairs (both halves); distinct_nontrivial = number of distinct values (distinct canonical texts) in the universe",
 			"samples":               pst.Samples,
